@@ -84,6 +84,9 @@ BN_THOROUGH = (65, 66, 80, 95, 96, 97, 127, 128, 129, 160, 191, 192, 193, 224, 2
 RCL = (9, 17, 33)
 NESTED_QUICK = (8, 32, 64, 128)
 NESTED_THOROUGH = (3, 8, 13, 16, 32, 33, 64, 65, 128, 256)
+# widths of the all-constant shapes: around the 32-bit C literal boundary, plus big numbers whose top 32-bit word is partial
+CONST_QUICK = (31, 32, 33, 48, 63, 64, 65, 72, 80, 127, 129)
+CONST_THOROUGH = (17, 24, 31, 32, 33, 40, 48, 56, 63, 64, 65, 72, 80, 96, 112, 120, 127, 129, 176)
 PROBE_ODD = (13,)
 NSHARDS_QUICK = 16
 NSHARDS_THOROUGH = 32
@@ -183,22 +186,48 @@ def CD(c, a, b):
     return ["cond", c, a, b]
 
 
-def build(spec):
+def LOC(offset, w):
+    """ExprLoc of width w whose location has that offset in the translator's LocationDB"""
+    return ["loc", offset, w]
+
+
+def build(spec, db=None):
     import miasm.expression.expression as E
     k = spec[0]
     if k == "id":
         return E.ExprId(str(spec[1]), spec[2])
     if k == "int":
         return E.ExprInt(spec[1], spec[2])
+    if k == "loc":
+        return E.ExprLoc(db.get_or_create_offset_location(spec[1]), spec[2])
     if k == "op":
-        return E.ExprOp(str(spec[1]), *[build(x) for x in spec[2]])
+        return E.ExprOp(str(spec[1]), *[build(x, db) for x in spec[2]])
     if k == "slice":
-        return E.ExprSlice(build(spec[1]), spec[2], spec[3])
+        return E.ExprSlice(build(spec[1], db), spec[2], spec[3])
     if k == "compose":
-        return E.ExprCompose(*[build(x) for x in spec[1]])
+        return E.ExprCompose(*[build(x, db) for x in spec[1]])
     if k == "cond":
-        return E.ExprCond(build(spec[1]), build(spec[2]), build(spec[3]))
+        return E.ExprCond(build(spec[1], db), build(spec[2], db), build(spec[3], db))
     raise ValueError(spec)
+
+
+def ref_spec(spec):
+    """The same expression for the reference evaluator: '!' (bitwise complement, `(~x)&mask` / bignum_not in TranslatorC)
+    has no entry in mc.refsem and is stated as x ^ mask."""
+    k = spec[0]
+    if k in ("id", "int", "loc"):
+        return spec
+    if k == "op":
+        args = [ref_spec(x) for x in spec[2]]
+        if spec[1] == "!" and len(args) == 1:
+            w = spec_size(args[0])
+            return ["op", "^", [args[0], K(mask(w), w)]]
+        return ["op", spec[1], args]
+    if k == "slice":
+        return ["slice", ref_spec(spec[1]), spec[2], spec[3]]
+    if k == "compose":
+        return ["compose", [ref_spec(x) for x in spec[1]]]
+    return ["cond"] + [ref_spec(x) for x in spec[1:]]
 
 
 def spec_ids(spec, out=None):
@@ -227,7 +256,7 @@ def spec_ids(spec, out=None):
 
 def spec_size(spec):
     k = spec[0]
-    if k in ("id", "int"):
+    if k in ("id", "int", "loc"):
         return spec[2]
     if k == "slice":
         return spec[3] - spec[2]
@@ -249,6 +278,8 @@ def spec_str(spec):
         return "%s:%d" % (spec[1], spec[2])
     if k == "int":
         return "0x%x:%d" % (spec[1], spec[2])
+    if k == "loc":
+        return "loc@0x%x:%d" % (spec[1], spec[2])
     if k == "op":
         return "%s(%s)" % (spec[1], ", ".join(spec_str(x) for x in spec[2]))
     if k == "slice":
@@ -350,8 +381,8 @@ def depth1(w, quick):
         out.append(F(op + "3", wc, "any", w, OP(op, a, b, c)))
         out.append(F(op + "3", wc, "any", w, OP(op, a, b, K(mask(w), w))))
     # unary
-    for op in ["-", "parity"] + CNT:
-        out.append(F(op if op != "-" else "neg", wc, "any", w, OP(op, a)))
+    for op in ["-", "!", "parity"] + CNT:
+        out.append(F({"-": "neg", "!": "not"}.get(op, op), wc, "any", w, OP(op, a)))
     # extensions
     for t in ext_targets(w):
         twc = "%s->%s" % (wc, wclass(t))
@@ -395,6 +426,7 @@ def contexts(w):
                ("signExt", OP("signExt_%d" % (w + 8), X)) if w + 8 <= 256 else None,
                ("cntleadzeros", OP("cntleadzeros", X)),
                ("neg", OP("-", X)),
+               ("not", OP("!", X)),
                ("+", OP("+", X, b)),
                ("compose2", CO(X, K(0, 8))) if w + 8 <= 256 else None,
                ]
@@ -411,6 +443,7 @@ def nested(w):
             continue
         inners.append((op, OP(op, a, b)))
     inners.append(("neg", OP("-", a)))
+    inners.append(("not", OP("!", a)))
     for op in CNT:
         inners.append((op, OP(op, a)))
     if w >= 2:
@@ -427,6 +460,109 @@ def nested(w):
             lists = [small(iw) if len(ids) > 2 else vals(iw) for _, iw in ids]
             out.append(F("%s(%s)" % (ctag, itag), wc, fam_of(ctag), w, cspec, lists=lists, inner=[itag, ctag]))
     return out
+
+
+def cvals(w):
+    """constants of the all-constant shapes: the 32-bit literal boundary and the width's own boundary"""
+    m = mask(w)
+    s = {0, 1, 0x7fffffff, 0x80000000, 0xffffffff, 0x100000000, 0x1ffffffff, 1 << (w - 1), m - 1, m}
+    if w > 64:
+        top = ((w - 1) // 32) * 32                      # lowest bit of the top (possibly partial) 32-bit word
+        s |= {1 << 64, (1 << 64) - 1, 1 << top, m ^ ((1 << top) - 1), int("a5" * 32, 16) & m, (1 << (w - 1)) | 1}
+    return sorted(v for v in s if v <= m)
+
+
+def cpairs(w, quick):
+    m = mask(w)
+    imin = 1 << (w - 1)
+    if w > 64:
+        top = ((w - 1) // 32) * 32
+        hi = m ^ ((1 << top) - 1)                      # only the top partial word set
+        ps = [(m, 1), (imin, m), (hi, 3), (int("a5" * 32, 16) & m, hi)]
+        if not quick:
+            ps += [(1 << 64, (1 << 64) - 1), (imin | 1, imin)] + [(x, hi) for x in cvals(w)]
+    elif quick:
+        ps = [(0xffffffff, 1), (0x7fffffff, 0x7fffffff), (0x80000000, 0x80000000), (0x100000000, 0xffffffff), (imin, m),
+              (2, 0x80000000)]
+    else:
+        ps = [(0xffffffff, 1), (0x7fffffff, 0x7fffffff), (0x80000000, 0x80000000), (0x100000000, 0xffffffff), (imin, m),
+              (2, 0x80000000), (m, 1), (1, 0xffffffff), (0x80000000, 1), (0x7fffffff, 1), (0xffffffff, 0xffffffff)]
+        ps += [(x, 0x80000000) for x in cvals(w)] + [(x, m) for x in cvals(w)]
+    out = []
+    for x, y in ps:
+        if x <= m and y <= m and (x, y) not in out:
+            out.append((x, y))
+    return out
+
+
+def constfam(w, quick):
+    """all-constant operand shapes and 32-bit-boundary constants as LEFT operand (a C literal's type depends on its value
+    and suffix, not on the expression width)"""
+    wc = wclass(w)
+    b = I("b", w)
+    m = mask(w)
+    out = []
+    for op in binary_ops(w):
+        fam = fam_of(op)
+        for x, y in cpairs(w, quick):
+            out.append(F(op + "#const", wc, fam, w, OP(op, K(x, w), K(y, w))))
+        if w <= 64:
+            for x in (0x7fffffff, 0x80000000, 0xffffffff, 0x100000000):
+                if x <= m:
+                    out.append(F(op, wc, fam, w, OP(op, K(x, w), b)))
+    if w > 64:
+        top = ((w - 1) // 32) * 32
+        uvals = sorted({m ^ ((1 << top) - 1), m, 1 << (w - 1)}) if quick else cvals(w)
+    else:
+        uvals = [v for v in (0x80000000, 0xffffffff, 0x100000000, m) if v <= m] if quick else cvals(w)
+    uvals = sorted(set(uvals))
+    for x in uvals:
+        k = K(x, w)
+        for op in ["-", "!", "parity"] + CNT:
+            out.append(F({"-": "neg", "!": "not"}.get(op, op) + "#const", wc, "any", w, OP(op, k)))
+        for t in ([64, 128] if quick else [64, 65, 128, 256]):
+            if t > w:
+                twc = "%s->%s" % (wc, wclass(t))
+                if not quick:
+                    out.append(F("zeroExt#const", twc, "any", w, OP("zeroExt_%d" % t, k)))
+                out.append(F("signExt#const", twc, "any", w, OP("signExt_%d" % t, k)))
+        for (lo, hi) in ((0, w // 2), (w // 2, w), (1, w)):
+            if 0 <= lo < hi <= w:
+                out.append(F("slice#const", ("%s->%s" % (cat(w), cat(hi - lo))) if w > 64 else wc, "any", w, SL(k, lo, hi)))
+        out.append(F("cond#const", wc, "any", w, CD(k, K(x ^ m, w), K(1, w))))
+    # compositions of constants with total width w
+    h = w // 2
+    for x, y in cpairs(w, quick)[:4]:
+        out.append(F("compose2#const", wc if w <= 64 else "bn<-" + "+".join(sorted({cat(h), cat(w - h)})), "any", w,
+                     CO(K(x, h), K(y, w - h))))
+    # 3 operands, all constant
+    for op in NARY:
+        for t in ((0xffffffff, 1, 1), (0x7fffffff, 0x7fffffff, 2), (m, m, m), (0x80000000, 0x80000000, 0x100000000),
+                  (1 << (w - 1), m, 3)):
+            if all(v <= m for v in t):
+                out.append(F(op + "3#const", wc, "any", w, OP(op, *[K(v, w) for v in t])))
+    return out
+
+
+def locfam(quick):
+    """ExprLoc with an offset in the translator's LocationDB: another literal-emitting node"""
+    out = []
+    for w in (32, 48, 64, 128):
+        wc = wclass(w)
+        a = I("a", w)
+        offs = [0x10, 0x7fffffff, 0x80000000, 0xffffffff] + ([0x100000000, 0xffffffff00000000 & mask(w)] if w > 32 else [])
+        for o in offs:
+            L = LOC(o, w)
+            out.append(F("loc", wc, "any", w, L))
+            out.append(F("+", wc, "any", w, OP("+", L, a)))
+            out.append(F("-", wc, "any", w, OP("-", a, L)))
+            out.append(F("+#const", wc, "any", w, OP("+", L, K(1, w))))
+            out.append(F("neg#loc", wc, "any", w, OP("-", L)))
+            out.append(F("+#loc", wc, "any", w, OP("+", L, LOC(1, w))))
+            out.append(F("==", wc, "cmp", w, OP("==", L, a)))
+            out.append(F("cond", wc + ",cond:" + cat(w), "any", w, CD(a, L, K(0, w))))
+    return out
+
 
 
 def probes(w):
@@ -456,6 +592,9 @@ def lattice(quick):
         fs += depth1(w, quick)
     for w in nest:
         fs += nested(w)
+    for w in (CONST_QUICK if quick else CONST_THOROUGH):
+        fs += constfam(w, quick)
+    fs += locfam(quick)
     for w in PROBE_ODD:
         fs += probes(w)
     fs += not_accepted_probes()
@@ -985,12 +1124,12 @@ def operand_class(f, expr, ids, tup):
     return "any"
 
 
-def translate(f):
-    """(ctext, None) | (None, ('not-accepted'|'raises', text))"""
+def translate(f, db):
+    """(expr, ctext, None) | (expr, None, ('not-accepted'|'raises', text))"""
     from miasm.ir.translators.C import TranslatorC
-    expr = build(f["spec"])
+    expr = build(f["spec"], db)
     try:
-        txt = TranslatorC().from_expr(expr)
+        txt = TranslatorC(loc_db=db).from_expr(expr)
     except NotImplementedError as e:
         return expr, None, ("not-accepted", "NotImplementedError: %s" % e)
     except Exception as e:         # noqa
@@ -1020,8 +1159,10 @@ def evaluate(funcs, shadow, rt_objs, workdir, name):
         return c.ru_utime + c.ru_stime, m.ru_utime + m.ru_stime
     t0 = time.time()
     c0 = cpu()
+    from miasm.core.locationdb import LocationDB
+    db = LocationDB()
     for k, f in enumerate(funcs):
-        expr, ctext, err = translate(f)
+        expr, ctext, err = translate(f, db)
         op_key = "%s|%s" % (f["tag"], f["wc"])
         if err is not None:
             kind, text = err
@@ -1030,8 +1171,9 @@ def evaluate(funcs, shadow, rt_objs, workdir, name):
             ent["n"] += 1
             continue
         ids = [E.ExprId(str(n), w) for n, w in spec_ids(f["spec"])]
+        expr = build(ref_spec(f["spec"]), db)      # from here on: the reference form ('!' stated as xor)
         try:
-            fn = refsem.compile_expr(expr, ids)
+            fn = refsem.compile_expr(expr, ids, loc=lambda e: db.get_location_offset(e.loc_key))
         except refsem.Unsupported:
             stats["not_accepted"].setdefault(op_key + "|no-reference", {"n": 0, "first": f["key"]})["n"] += 1
             continue
@@ -1169,7 +1311,8 @@ def evaluate(funcs, shadow, rt_objs, workdir, name):
                 if outcome == "stdout":
                     sig = "%s|%s|stdout" % (f["tag"], f["wc"])
                 else:
-                    sig = "%s|%s|%s:%s" % (f["tag"], f["wc"], oc, outcome)
+                    # context(inner) shapes: the operand class only serves the duplicate filter, one signature per shape
+                    sig = "%s|%s|%s:%s" % (f["tag"], f["wc"], oc if f["inner"] is None else "any", outcome)
                 stats["outcomes"].add(sig)
                 n = per_sig.get(sig, 0)
                 per_sig[sig] = n + 1
@@ -1288,7 +1431,7 @@ def run(ctx):
         "exhaustive": True,
         "bounds": {"native": list(NATIVE), "odd": list(ODD_QUICK if quick else ODD_THOROUGH),
                    "bn": list(BN_QUICK if quick else BN_THOROUGH), "nested": list(NESTED_QUICK if quick else NESTED_THOROUGH),
-                   "rcl": list(RCL), "probe_odd": list(PROBE_ODD), "values": "all for w<=4, refsem.boundary(w) above; "
+                   "rcl": list(RCL), "probe_odd": list(PROBE_ODD), "const_shapes": list(CONST_QUICK if quick else CONST_THOROUGH), "values": "all for w<=4, refsem.boundary(w) above; "
                    "reduced 7-value set per operand for 3-operand shapes", "shards": n, "generated_code_optimisation": opt},
     })
     return cov
